@@ -1,7 +1,9 @@
 #!/usr/bin/env python3
-"""Prints the markdown table of seeded changes and which checks detect them (from seeded/*/meta.json)."""
-import glob, json, os
+"""Prints the markdown table of seeded changes and which checks detect them (from seeded/*/meta.json).
+--short: one compact line per seed (used for DESIGN.md 9.5)."""
+import glob, json, os, re, sys
 HERE = os.path.dirname(os.path.dirname(os.path.abspath(__file__)))
+short = "--short" in sys.argv
 rows = []
 for mp in sorted(glob.glob(os.path.join(HERE, "seeded", "*", "meta.json"))):
     m = json.load(open(mp))
@@ -9,10 +11,20 @@ for mp in sorted(glob.glob(os.path.join(HERE, "seeded", "*", "meta.json"))):
     det = [k for k, v in sorted(m.get("checks", {}).items()) if v.get("detected")]
     miss = [k for k, v in sorted(m.get("checks", {}).items()) if not v.get("detected")]
     times = ", ".join("%s %ds" % (k, m["checks"][k]["wall_s"]) for k in det)
-    rows.append("| %s | %s | %s | %s | %s | %s | %s |" % (
-        m["name"], (m.get("summary") or "").replace("|", "/")[:150], (m.get("needs_to_manifest") or "").replace("|", "/")[:150],
-        "yes" if c.get("suite_passes") else "NO", "yes" if c.get("demo_discriminates") else "NO",
-        times or "-", ", ".join(miss) or "-"))
-print("| seed | change | needs to manifest | suite passes | demo fails/passes | detected by (quick, wall incl. rebuild) | run but not detected by |")
-print("|---|---|---|---|---|---|---|")
+    summ = re.sub(r"\s+", " ", (m.get("summary") or "")).replace("|", "/")
+    if short:
+        rows.append("| %s | %s | %s | %s | %s |" % (
+            m["name"], summ[:170] + ("…" if len(summ) > 170 else ""),
+            "yes/yes" if c.get("suite_passes") and c.get("demo_discriminates") else "NO", times or "**none**", ", ".join(miss) or "-"))
+    else:
+        rows.append("| %s | %s | %s | %s | %s | %s | %s |" % (
+            m["name"], summ[:150], (m.get("needs_to_manifest") or "").replace("|", "/")[:150],
+            "yes" if c.get("suite_passes") else "NO", "yes" if c.get("demo_discriminates") else "NO",
+            times or "-", ", ".join(miss) or "-"))
+if short:
+    print("| seed | change (first words of the author's summary; full text in seeded/<id>/meta.json) | suite passes / demo discriminates | detected by (quick tier, wall s) | also run, not detected by |")
+    print("|---|---|---|---|---|")
+else:
+    print("| seed | change | needs to manifest | suite passes | demo fails/passes | detected by (quick, wall incl. rebuild) | run but not detected by |")
+    print("|---|---|---|---|---|---|---|")
 print("\n".join(rows))
